@@ -7,6 +7,26 @@ UTMI transmit producer.  Oracle: the PHY's ghost Function Control / OTG Control 
 commands the PHY-side decoder saw complete) against the composites computed here from the ULPI 1.1 register layouts.
 Liveness is checked as bounded response under a fairness assumption on the PHY (a presented byte is accepted within
 two cycles).
+
+FINDINGS (genuine defects, not fixed in /repo: recorded in known_findings.json, each with a scenario predicate kf_*
+that is 1 only after its triggering coincidence and until the bus has been clean again; violations outside the
+scenarios are still reported):
+  A. tx_and_regwrite_same_cycle_deadlock -- a transmission that is waiting to start (tx_valid, DIR low) in the cycle in
+     which the control translator requests a write: ulpi_out_req is latched, control_translator.busy (registered) then
+     removes bus_idle from the transmitter, the data mux gives the silent transmitter priority over the register
+     window: neither the TXCMD nor the RegWrite ever reaches the bus (viol tx_progress).  Reached from reset with the
+     ordinary full-speed setting (xcvr_select=1, term_select=1) and tx_valid from step 0, and whenever tx_valid waits
+     while the second of two register writes is requested.
+  B. regwrite_requested_during_txcmd -- a control input changes while the TXCMD byte is on the bus (the transmitter
+     only counts as busy after NXT): the register window performs its write "under" the transmission, takes the
+     transmission's NXT for its own, reports done (shadow register updated, PHY register not: viol converge) or lets
+     its data/STP out when the transmission ends (viol link_framing/write_addr/write_value); with a slow NXT the
+     TXCMD is withdrawn and both stall (viol tx_progress).
+  C. control_input_changed_while_write_in_flight -- ULPIRegisterWindow uses the live, re-multiplexed address /
+     write_data (its current_address/current_write latches are unused) and ULPIControlTranslator credits `done` to the
+     live priority winner with the live write_value: RegWrite to address 0x00 when the inputs changed back
+     (viol write_addr), Function Control's value written to the OTG Control address (viol write_value), shadow
+     register updated to a value the PHY never received so the PHY register stays wrong for ever (viol converge).
 """
 from amaranth import *
 from ..harness import Harness
